@@ -398,7 +398,16 @@ result_t DateTimeDataType::readSymbols(size_t offset, size_t length, const Symbo
           // only the own bits count (the remaining bits of the byte may belong to another field)
           symbol = (symbol_t)(symbol & ((1 << m_bitCount) - 1));
         }
-        if (!hasFlag(REQ) && symbol == m_replacement) {
+        if (hasFlag(SPE)) {  // minutes since midnight (16 bit value, replacement only if both bytes match)
+          if (i == 0) {
+            last = symbol;
+            continue;
+          }
+          if (!hasFlag(REQ) && symbol == m_replacement && last == m_replacement) {
+            *output << NULL_VALUE << ":" << NULL_VALUE;
+            break;
+          }
+        } else if (!hasFlag(REQ) && symbol == m_replacement) {
           if (length == 1) {  // truncated time
             *output << NULL_VALUE << ":" << NULL_VALUE;
             break;
@@ -410,10 +419,6 @@ result_t DateTimeDataType::readSymbols(size_t offset, size_t length, const Symbo
           break;
         }
         if (hasFlag(SPE)) {  // minutes since midnight
-          if (i == 0) {
-            last = symbol;
-            continue;
-          }
           minutes = symbol*256 + last;
           if (minutes > 24*60) {
             return RESULT_ERR_OUT_OF_RANGE;  // invalid value
@@ -425,9 +430,6 @@ result_t DateTimeDataType::readSymbols(size_t offset, size_t length, const Symbo
           *output << setw(2) << dec << setfill('0') << minutesHour;
           symbol = (symbol_t)(minutes % 60);
         } else if (length == 1) {  // truncated time
-          if (m_bitCount < 8) {
-            symbol = (symbol_t)(symbol & ((1 << m_bitCount) - 1));
-          }
           if (i == 0) {
             symbol = (symbol_t)(symbol/(60/m_resolution));  // convert to hours
             index -= incr;  // repeat for minutes
